@@ -164,18 +164,30 @@ def doubleQ (q : Nat) : Str → Str
   | [] => []
   | c :: cs => if c.toNat == q then c :: c :: doubleQ q cs else c :: doubleQ q cs
 
+/-- `needQuoteSheetName`: a name made of letters and numbers that still needs quotes — it starts
+with a number (byte-wise: an ASCII digit), reads as a cell reference, or is a boolean -/
+def needQuote (name : Str) : Bool :=
+  match name with
+  | [] => false
+  | c :: _ =>
+    isDigit c ||
+    (match cellNameToCoordinates name with | .ok _ => true | .error _ => false) ||
+    name.map toUpper == ['T', 'R', 'U', 'E'] || name.map toUpper == ['F', 'A', 'L', 'S', 'E']
+
 /-- `escapeSheetName` -/
 def escapeSheetName (name : Str) : Str :=
-  if name.all isWordByte then name
+  if name.all isWordByte && !needQuote name then name
   else [Char.ofNat Facts.C07.sheetQuote] ++ doubleQ Facts.C07.sheetQuote name ++ [Char.ofNat Facts.C07.sheetQuote]
 
-/-- `adjustFormulaOperand` -/
+/-- `adjustFormulaOperand`: the sheet name is what precedes the LAST separator
+(`strings.LastIndex(token.TValue, "!")`) -/
 def adjustOperand (sheet sheetN : Str) (kr : Bool) (e : Edit) (tv : Str) : Except Err Str :=
-  let parts := splitOn Facts.C07.sheetSep tv
-  let have2 := parts.length == Facts.C07.sheetParts
-  let sheetName : Str := if have2 then parts.headD [] else []
-  let cell : Str := if have2 then (parts.drop 1).headD [] else tv
-  let op0 : Str := if have2 then escapeSheetName sheetName ++ [Char.ofNat Facts.C07.sheetSep] else []
+  let idx := lastIdx (fun c => c.toNat == Facts.C07.sheetSep) tv
+  let sheetName : Str := match idx with | some i => tv.take i | none => []
+  let cell : Str := match idx with | some i => tv.drop (i + 1) | none => tv
+  let op0 : Str := match idx with
+    | some _ => escapeSheetName sheetName ++ [Char.ofNat Facts.C07.sheetSep]
+    | none => []
   let sheetName := if sheetName.isEmpty then sheetN else sheetName
   if sheet ≠ sheetName then .ok (op0 ++ cell) else adjustCell kr e op0 cell
 
@@ -209,22 +221,64 @@ structure Env where
 def isAdjusted (env : Env) (t : Token) : Bool :=
   t.ty = .operand ∧ t.sub = .range ∧ !env.names.contains t.tv ∧ !containsBracket t.tv
 
-/-- the token loop of `adjustFormulaRef`: result text so far and the error, if any
-(Go returns `val, err`; on an Unknown token `formula, nil`). -/
-def adjustRefLoop (env : Env) : Str → List Token → Str × Option Err
-  | val, [] => (val, none)
-  | val, t :: ts =>
-    if t.ty = .unknown then (env.formula, none)
-    else if t.ty = .operand ∧ t.sub = .range then
-      if env.names.contains t.tv then adjustRefLoop env (val ++ t.tv) ts
-      else if containsBracket t.tv then adjustRefLoop env (val ++ t.tv) ts
-      else
-        match adjustOperand env.sheet env.sheetN env.kr env.e t.tv with
-        | .error er => (val, some er)
-        | .ok o => adjustRefLoop env (val ++ o) ts
-    else adjustRefLoop env (val ++ verbatim t) ts
+/-! #### array constants: efp turns `{1,2;3,4}` into `ARRAY(ARRAYROW(1,2),ARRAYROW(3,4))` -/
 
-def adjustRef (env : Env) (toks : List Token) : Str × Option Err := adjustRefLoop env [] toks
+inductive AKind | paren | arr | row
+  deriving DecidableEq, Repr
+
+def sARRAY : Str := ['A', 'R', 'R', 'A', 'Y']
+def sARRAYROW : Str := ['A', 'R', 'R', 'A', 'Y', 'R', 'O', 'W']
+
+def isStartTok (t : Token) : Bool := (t.ty = .function ∨ t.ty = .subexpr) ∧ t.sub = .start
+def isStopTok (t : Token) : Bool := (t.ty = .function ∨ t.ty = .subexpr) ∧ t.sub = .stop
+def isArrayStart (t : Token) : Bool := t.ty = .function ∧ t.sub = .start ∧ t.tv = sARRAY
+def isRowStart : List Token → Bool
+  | t :: _ => t.ty = .function ∧ t.sub = .start ∧ t.tv = sARRAYROW
+  | [] => false
+def isArgTok : List Token → Bool
+  | t :: _ => t.ty = .argument
+  | [] => false
+
+/-- `arrayConstantTokens`: for every token, the text it is replaced by when it is a brace or a row
+separator of an array constant (`none` = not part of one). `st` is the stack of open
+functions/subexpressions, `pend` the mark the previous token put on this one (`res[i+1] = ";"`). -/
+def arrayMarks : List AKind → Option Str → List Token → List (Option Str)
+  | _, _, [] => []
+  | st, pend, t :: ts =>
+    if isStartTok t then
+      if isArrayStart t && isRowStart ts then some ['{'] :: arrayMarks (.arr :: st) none ts
+      else if isRowStart (t :: ts) && st.head? == some .arr then some [] :: arrayMarks (.row :: st) none ts
+      else pend :: arrayMarks (.paren :: st) none ts
+    else if isStopTok t then
+      match st with
+      | [] => pend :: arrayMarks [] none ts
+      | .arr :: st' => some ['}'] :: arrayMarks st' none ts
+      | .row :: st' =>
+        some [] :: arrayMarks st' (if isArgTok ts && isRowStart (ts.drop 1) then some [';'] else none) ts
+      | .paren :: st' => pend :: arrayMarks st' none ts
+    else pend :: arrayMarks st none ts
+
+/-- the token loop of `adjustFormulaRef`: result text so far and the error, if any
+(Go returns `val, err`; on an Unknown token `formula, nil`). `ms` are the array-constant marks. -/
+def adjustRefLoop (env : Env) : Str → List (Option Str) → List Token → Str × Option Err
+  | val, _, [] => (val, none)
+  | val, ms, t :: ts =>
+    if t.ty = .unknown then (env.formula, none)
+    else
+      match ms.headD none with
+      | some txt => adjustRefLoop env (val ++ txt) ms.tail ts
+      | none =>
+        if t.ty = .operand ∧ t.sub = .range then
+          if env.names.contains t.tv then adjustRefLoop env (val ++ t.tv) ms.tail ts
+          else if containsBracket t.tv then adjustRefLoop env (val ++ t.tv) ms.tail ts
+          else
+            match adjustOperand env.sheet env.sheetN env.kr env.e t.tv with
+            | .error er => (val, some er)
+            | .ok o => adjustRefLoop env (val ++ o) ms.tail ts
+        else adjustRefLoop env (val ++ verbatim t) ms.tail ts
+
+def adjustRef (env : Env) (toks : List Token) : Str × Option Err :=
+  adjustRefLoop env [] (arrayMarks [] none toks) toks
 
 end Impl
 
